@@ -431,8 +431,15 @@ def generic_interp_vs_native(chk, h, cases):
     """cases: list of (fn, args, out buffer names).  Concrete-double interpretation of the IR vs the g++ build."""
     for fn, args, names in cases:
         ps = h.run(fn, args, domain='C')
-        ret, o = h.native(fn, args)
         chk.cov['interp_vs_native']['cases'] += 1
+        try:
+            ret, o = h.native(fn, args)
+        except Exception as e:
+            # the real code crashed: the interpreter must have ended this path in an error as well
+            if not (len(ps) == 1 and ps[0].status == 'error'):
+                chk.cov['interp_vs_native']['mismatches'] += 1
+                chk.broken_q('native build crashed on %s (%s) but the interpreter did not report an error' % (fn, e))
+            continue
         ok = len(ps) == 1 and ps[0].status == 'ok' and ps[0].ret == ret
         if ok:
             for nm in names:
@@ -513,3 +520,76 @@ class Trig:
 
     def reduce(self, p):
         return self.ctx.reduce_squares(p, self.pairs)
+
+
+class TrigLin:
+    """sin/cos of integer combinations of base angle variables, rewritten over canonical atoms S[v], C[v] by the
+    addition formulas (true lemmas: sin(x+y), cos(x+y), parity, sin 0 = 0, cos 0 = 1); circle lemma via reduce()."""
+
+    def __init__(self, ctx):
+        self.ctx = ctx
+        self.S = {}
+        self.C = {}
+        self.pairs = []
+        self.unmatched = []
+        self.instances = 0
+
+    def base(self, vterm):
+        """register angle variable (a Term var) and return (S poly, C poly)"""
+        i = self.ctx.atom(vterm)
+        if i not in self.S:
+            s = self.ctx.atom(T.var('S[%s]' % vterm.aux))
+            c = self.ctx.atom(T.var('C[%s]' % vterm.aux))
+            self.S[i], self.C[i] = s, c
+            self.pairs.append((c, s))
+        return Poly.atom(self.S[i]), Poly.atom(self.C[i])
+
+    def expand(self, combo):
+        """combo: dict atom index -> integer multiple.  returns (sin, cos) Polys of the combination"""
+        s, c = Poly(), Poly.const(1)
+        for a, n in sorted(combo.items()):
+            sa, ca = Poly.atom(self.S[a]), Poly.atom(self.C[a])
+            if n < 0:
+                sa = -sa
+                n = -n
+            for _ in range(n):
+                s, c = s * ca + c * sa, c * ca - s * sa
+        return s, c
+
+    def canon(self, terms):
+        for t in T.atoms_of(terms, ('sin', 'cos')):
+            if t.id in self.ctx.atom_of:
+                continue
+            ap = self.ctx.poly(t.args[0])
+            combo = {}
+            ok = True
+            for m, cf in ap.d.items():
+                if len(m) != 1 or m[0][1] != 1 or cf.denominator != 1 or m[0][0] not in self.S or abs(cf) > 8:
+                    ok = False
+                    break
+                combo[m[0][0]] = int(cf)
+            i = self.ctx.atom(t)
+            if not ok:
+                self.unmatched.append(t)
+                continue
+            s, c = self.expand(combo)
+            self.ctx.subst[i] = s if t.op == 'sin' else c
+            self.instances += 1
+
+    def bounds(self, residual):
+        for c, s in self.pairs:
+            residual.atom_bound[c] = Fraction(1)
+            residual.atom_bound[s] = Fraction(1)
+
+    def reduce(self, p):
+        return self.ctx.reduce_squares(p, self.pairs)
+
+
+def safe_replay(fn, chk, h, c):
+    """run a replay function; a crash of the native code (abort, segfault) counts as reproduced"""
+    from irsym.harness import NativeCrash
+    try:
+        return fn(chk, h, c)
+    except NativeCrash as e:
+        c['native_crash'] = str(e)
+        return True, float('inf')
